@@ -164,6 +164,26 @@ fn c18_text(runs: &[(usize, usize)], long_line: Option<(usize, usize)>, final_ne
     tf.write_all(&bytes).unwrap();
     tf.flush().unwrap();
     let path = tf.path().to_path_buf();
+    if lines.is_empty() {
+        // the empty file: the chunker must still give a partition of [0, 0) for every chunk count
+        // (what the indexer says about a file without a line is not prescribed)
+        out.nontrivial = true;
+        out.count("empty_files", 1);
+        let _ = guarded(|| index_chroms(File::open(&path).unwrap())).map_err(|p| out.fail("indexer_panicked", &["empty_file".to_string()], p));
+        for n in [1u64, 2, 3, 6, 16, 1000] {
+            out.count("chunkings", 1);
+            match guarded(|| split_file_into_chunks_by_size(File::open(&path).unwrap(), n)) {
+                Err(p) => out.fail("chunker_panicked", &["empty_file".to_string()], format!("chunks={}: {}", n, p)),
+                Ok(Err(e)) => out.fail("chunker_error", &["empty_file".to_string()], format!("chunks={}: {}", n, e)),
+                Ok(Ok(ch)) => {
+                    if ch.is_empty() || ch.iter().any(|c| *c != (0, 0)) {
+                        out.fail("chunks_not_a_line_aligned_partition", &["empty_file".to_string()], format!("chunks={} -> {:?} for an empty file", n, ch));
+                    }
+                }
+            }
+        }
+        return;
+    }
     let want = linear_index(&lines);
     let mut tags = vec![];
     if long_line.is_some() {
@@ -674,6 +694,8 @@ impl Check for C18 {
                 v.push(C18Case::Text { runs, long_line: Some((at, 1350)), final_newline: true, bed, utf8: false, crlf: false, tail: 0, extra_pad });
             }
         }
+        // the empty file
+        v.push(C18Case::Text { runs: vec![], long_line: None, final_newline: false, bed: true, utf8: false, crlf: false, tail: 0, extra_pad: 0 });
         // one larger file: many lines per run, so that probes land well inside runs
         for final_newline in [true, false] {
             v.push(C18Case::Text { runs: vec![(0, 40), (1, 1), (2, 25), (3, 2)], long_line: Some((41, 40)), final_newline, bed: false, utf8: false, crlf: false, tail: 0, extra_pad: 0 });
